@@ -152,6 +152,9 @@ Edits(nb) ==
   { <<[a |-> "ChangeKind", pos |-> i],
       SetField(i, "kind", IF nb.cells[i].kind = "code" THEN "markdown" ELSE "code")>> : i \in 1..n }
   \cup
+  \* ... or to a raw cell (the two sides may convert one cell to two different types)
+  { <<[a |-> "ChangeKindRaw", pos |-> i], SetField(i, "kind", "raw")>> : i \in {q \in 1..n : nb.cells[q].kind # "raw"} }
+  \cup
   \* give a cell a new identity (both sides may re-id the same cell differently)
   { <<[a |-> "ReId", pos |-> i, v |-> c], SetField(i, "cid", c)>> : i \in 1..n, c \in fresh }
   \cup
@@ -177,6 +180,9 @@ Edits(nb) ==
   (IF nb.minor < 5 THEN { <<[a |-> "BumpMinor"], [nb EXCEPT !.minor = @ + 1]>> } ELSE {})
   \cup
   (IF nb.minor < 4 THEN { <<[a |-> "BumpMinor2"], [nb EXCEPT !.minor = @ + 2]>> } ELSE {})
+  \cup
+  \* the notebook re-saved in an older format (from 4.5: the cell ids go)
+  (IF nb.minor > 1 THEN { <<[a |-> "LowerMinor"], [nb EXCEPT !.minor = @ - 1]>> } ELSE {})
 
 \* an edit that changes nothing is not an edit
 RealEdits(nb) == {e \in Edits(nb) : e[2] # nb}
